@@ -132,7 +132,7 @@ CLAIMED = {
                    "every 7th verdict re-run with cvc5): unsat(exists an admissible assignment of the requested "
                    "geometry that is equivalent under no automorphism to an output); sat models are re-evaluated with "
                    "exact rationals against a fresh native run before they are reported"),
-        text=("For every connected complete 2D D-set with at most 6 (thorough: 8) chambers and each of the four "
+        text=("For every connected complete 2D D-set with at most 7 (thorough: 8) chambers and each of the four "
               "geometry settings the real DSyms generator is run. Ground, per output: it lives on the input D-set, "
               "branching constant on 2-orbits, every degree >= 3, curvature of the requested sign (exact rationals), "
               "spherical outputs have branching <= 7 and an orbifold on the list of good orbifolds, hyperbolic outputs "
